@@ -126,6 +126,21 @@ pub fn run(s: &mut Session, ctx: &Ctx) {
             colors.push(Color::from_rgba(r, g, b, 1.0 - 1e-5 * (k as f64 + 1.0) / 100.0));
         }
     }
+    // near-neutral colours: every gray level with each channel moved by -2..2 (where chroma-like
+    // coordinates are near zero and any "tidy small values to 0" shortcut in a formatter bites)
+    for g in 0..=255i32 {
+        for dr in -2..=2i32 {
+            for dg in -2..=2i32 {
+                for db in -2..=2i32 {
+                    if !ctx.thorough && (g + dr + 2 * dg + 3 * db).rem_euclid(3) != 0 {
+                        continue;
+                    }
+                    let q = |x: i32| x.max(0).min(255) as u8;
+                    colors.push(Color::from_rgba(q(g + dr), q(g + dg), q(g + db), 1.0));
+                }
+            }
+        }
+    }
     // the direct oracle on these 8-bit colours too: every hex alpha level, every three-decimal
     // alpha, and alphas within 1e-5 of 1 (where "omit alpha" and "print alpha" meet)
     for c in colors.clone().iter() {
